@@ -41,7 +41,7 @@ def main():
         out["checks"] = {}
         for p in props:
             t = time.time()
-            c = subprocess.run(["python3", "/verif/check.py", "check", p, "--tier", "quick"], capture_output=True, text=True, env=env, cwd="/verif")
+            c = subprocess.run(["python3", os.path.join(os.path.dirname(os.path.abspath(__file__)), "check.py"), "check", p, "--tier", "quick"], capture_output=True, text=True, env=env, cwd=os.path.dirname(os.path.abspath(__file__)))
             lines = [l for l in c.stdout.splitlines() if l.startswith("VIOLATION") or l.startswith("  what")]
             out["checks"][p] = {"exit": c.returncode, "detected": c.returncode == 1 and any(l.startswith("VIOLATION") for l in lines),
                                 "first": lines[:2], "wall_s": round(time.time() - t, 1), "tail": c.stdout.strip().splitlines()[-1:] + c.stderr.strip().splitlines()[-2:]}
